@@ -228,16 +228,15 @@ def classify(rows, prop, known_tags):
         inp, impl, model, spec, cls, branch = row
         tags = set() if cls in ("-", "") else set(cls.split(","))
         same = impl == model
+        fail = spec.startswith("FAIL")
+        listed = bool(tags) and tags <= known_tags
         if model in ("unmodelled", "-"):
             # the model deliberately says nothing here (documented per op): only the spec judges
             if fail:
                 viol.append((row, "spec-failure-on-unmodelled-op"))
             else:
-                agree += 0
                 unmodelled[0] += 1
             continue
-        fail = spec.startswith("FAIL")
-        listed = bool(tags) and tags <= known_tags
         if model in ("bad-op", "bad-line", "driver-died") or impl == "bad-op":
             viol.append((row, "protocol"))
         elif same and not fail:
